@@ -401,6 +401,14 @@ Theorem c09_summary_hypotheses_hold_when_reachable : forall (K : consts) (ops : 
 Proof. exact reachable_summary_hyps. Qed.
 Print Assumptions c09_summary_hypotheses_hold_when_reachable.
 
+(* … and in every state any interleaving of concurrent schedule / auto calls and message appenders reaches from there *)
+Theorem c09_summary_hypotheses_hold_in_every_interleaving :
+  forall (K : consts) (ops : list op) (calls : list aspec) (s' : st) (acts' : list astate),
+  sys_steps K (fst (run_ops K st0 ops []), map start_of calls) (s', acts') ->
+  msorted (log s') /\ Forall (fun c => ck_to c <> 0) (ckpts (log s')).
+Proof. exact concurrent_summary_hyps. Qed.
+Print Assumptions c09_summary_hypotheses_hold_in_every_interleaving.
+
 (* What the summary records of its delta and the correspondence reads back from the artifact: `- delta_actors:` is the
    head (6 entries) of the per-actor message counts of the slice sorted most-frequent-first, ties by actor — every entry
    (a, c) says that exactly c > 0 messages of the slice were written by a; `## Recent Delta Highlights` is the slice's
